@@ -120,10 +120,11 @@ class Resolver:
             self.walk(f, fr)
 
     # -- lookups
-    def lookup(self, n, fr):
-        """Lexical lookup of a *reference* to n from frame fr outward."""
+    def lookup(self, n, fr, nested=False):
+        """Lexical lookup of a *reference* to n from frame fr outward
+        (nested=True: the reference sits in a Python scope nested in fr)."""
         crossed_fn = False      # passed a function frame (closure)
-        crossed_py = False      # passed any function/class frame
+        crossed_py = nested     # passed any function/class frame
         cur = fr
         while cur is not None:
             k = cur.kind
@@ -203,7 +204,7 @@ class Resolver:
 
     def lookup_quiet(self, n, fr):
         save = list(self.carve)
-        r = self.lookup(n, fr)
+        r = self.lookup(n, fr, nested=True)
         self.carve[:] = save
         return r
 
